@@ -565,10 +565,12 @@ def h_ref_sig8(ctx):
     sigs = list(cfg['sigs'])        # signatures key a dictionary in the library: concrete (incl. values with the top bit set)
     vals = [ctx.byte('val%d' % i) for i in range(2)]
     types = []
+    fmts = cfg.get('fmt64', (False, False))        # the units of one section may mix the 32-bit and the 64-bit format, and address sizes
+    addrs = cfg.get('addrs', (8, 8))
     for i in range(2):
-        hp, hsz = unit_header(4, False, little, 8, 0, tu=True, body_len=0)
+        hp, hsz = unit_header(4, fmts[i], little, addrs[i], 0, tu=True, body_len=0)
         # type_offset designates the second DIE (the leaf) of the type unit, relative to the unit start
-        h, _ = unit_header(4, False, little, 8, 0, tu=True, body_len=4, signature=sigs[i], type_offset=hsz + 1)
+        h, _ = unit_header(4, fmts[i], little, addrs[i], 0, tu=True, body_len=4, signature=sigs[i], type_offset=hsz + 1)
         types += h + [1, 2, vals[i], 0]
     which = ctx.int_range('which', 0, 1)
     want_sig = ctx.select(sigs, which)
@@ -585,6 +587,10 @@ def h_ref_sig8(ctx):
     tus = ctx.walk(lambda: di.iter_TUs())
     ctx.check_eq('ref_sig8/tu-count', len(tus), 2)
     ctx.check_eq('ref_sig8/tu-signatures', [t['signature'] for t in tus], sigs)
+    # what a unit hands to everything decoded on its behalf (expressions, line programs, forms): its own format and address size
+    ctx.check_eq('ref_sig8/tu-structs', [(t.structs.dwarf_format, t.structs.address_size, t.dwarf_format(), t['address_size']) for t in tus],
+                 [(64 if fmts[i] else 32, addrs[i], 64 if fmts[i] else 32, addrs[i]) for i in range(2)])
+    ctx.check_eq('ref_sig8/cu-structs', [(c.structs.dwarf_format, c.structs.address_size) for c in ctx.walk(lambda: di.iter_CUs())], [(32, 8)])
 
 
 # ------------------------------------------------------------------ instances
@@ -697,6 +703,9 @@ HARNESSES = [
     H('h4_6_ref_unit_lookup', C13.h_cu_lookup, lambda tier: [c for c in C13._lookup_instances(tier) if c['op'] == 'containing' and len(c['warm']) in (0, 2)], expect=('ok', 'outside'),
       desc='the unit that a section-relative reference (DW_FORM_ref_addr, an offset taken from another table) falls in, for every prior state of the unit cache - '
            'sparse ones included: units 0 and 2 known, the reference points into unit 1 (harness shared with C13)'),
-    H('h4_6_ref_sig8', h_ref_sig8, lambda tier: [dict(little=l, sigs=s) for l in (True, False) for s in ([1, 2], [0xfedcba9876543210, 0x8000000000000000], [0, 0xffffffffffffffff])], expect=('ok',),
+    H('h4_6_ref_sig8', h_ref_sig8, lambda tier: [dict(little=l, sigs=s) for l in (True, False) for s in ([1, 2], [0xfedcba9876543210, 0x8000000000000000], [0, 0xffffffffffffffff])] +
+                                                  [dict(little=l, sigs=[5, 6], fmt64=f, addrs=a) for l in (True, False) for f, a in (((True, False), (8, 8)), ((False, True), (4, 8)), ((True, True), (8, 4)))], expect=('ok',),
       desc='DW_FORM_ref_sig8 through two v4 type units with signatures at the 64-bit boundaries and a symbolic choice of target'),
 ]
+
+HARNESSES_BY_NAME = {h.name: h for h in HARNESSES}
